@@ -45,6 +45,24 @@ class Borda(Suite):
         for a, b in pairs:
             for s in (gen.UNIFYING, gen.INDUCED):
                 cases.append({"bid": rng.random() < 0.5, "s": s, "D": [a, b]})
+        # equal means computed over DIFFERENT numbers of rankings (3/5 and 9/15, 5/3 and 25/15 ...): the ties of the
+        # definition are exact, a mean formed as total * (1 / count) or with an intermediate rounding splits them.
+        # x is an anchor; A and B are tied wherever both appear; B alone appears in t times as many extra rankings
+        # with the same proportion of "after x" / "before x"
+        for a1 in range(0, 8):
+            for a0 in range(0, 8 - a1):
+                if a1 + a0 == 0:
+                    continue
+                for t in ((1, 2, 3) if tier == "quick" else (1, 2, 3, 4, 5)):
+                    if (a1 + a0) * (1 + t) > (24 if tier == "quick" else 48):
+                        continue
+                    D = [[[0], [1, 2]]] * a1 + [[[1, 2], [0]]] * a0 + [[[0], [2]]] * (a1 * t) + [[[2], [0]]] * (a0 * t)
+                    rng.shuffle(D)
+                    cases.append({"bid": rng.random() < 0.5, "s": rng.choice([gen.INDUCED, gen.INDUCED_HALF]), "D": D})
+                    # the same with a longer prefix (scores 2 and 1 instead of 1 and 0)
+                    D2 = [[[0], [3], [1, 2]]] * a1 + [[[0], [1, 2], [3]]] * a0 + [[[0], [3], [2]]] * (a1 * t) + [[[0], [2], [3]]] * (a0 * t)
+                    rng.shuffle(D2)
+                    cases.append({"bid": rng.random() < 0.5, "s": gen.INDUCED, "D": D2})
         n = 700 if tier == "quick" else 8000
         for _ in range(n):
             cases.append({"bid": rng.random() < 0.5, "s": borda_schemes(rng), "D": gen.random_dataset(rng, 8, 6)})
